@@ -1,4 +1,201 @@
-(* placeholder, replaced below *)
-From Verif Require Import Css.Cascade Css.CascadeSpec.
-Theorem C03_placeholder : True. Proof. exact I. Qed.
-Print Assumptions C03_placeholder.
+(* Properties/C03.v -- The cascade picks the declaration CSS says wins.
+   Only statements, closed by `exact`, each followed by Print Assumptions.
+
+   Model: Css/Cascade.v (port of newStyleFor, findStyleAttributes,
+   declarationPrecedence, weight.Less, preprocessStylesheet,
+   PreprocessDeclarationsPrelude, GetAllComputedStyles after the repairs
+   5fe51d0, 44a9070, 5f1d923); specification: Css/CascadeSpec.v.
+   Check/C03.v ties the model to /repo on every run. *)
+From Verif Require Import Css.Cascade Css.CascadeSpec Css.CascadeProofs.
+From Coq Require Import List NArith Bool.
+Import ListNotations.
+Open Scope N_scope.
+
+(* 1. origin and importance: the precedence numbers of declarationPrecedence are
+   the CSS levels  user agent < user < author < author !important < user !important *)
+Theorem C03_precedence_table_correct : forall o i,
+  declaration_precedence o i = level_index (level_of o i) + 1.
+Proof. exact precedence_table_correct. Qed.
+Print Assumptions C03_precedence_table_correct.
+
+Theorem C03_precedence_table_order : forall o1 i1 o2 i2,
+  declaration_precedence o1 i1 < declaration_precedence o2 i2 <->
+  level_index (level_of o1 i1) < level_index (level_of o2 i2).
+Proof. exact precedence_table_order. Qed.
+Print Assumptions C03_precedence_table_order.
+
+Example C03_levels :
+  level_index (level_of UA false) < level_index (level_of User false) /\
+  level_index (level_of User false) < level_index (level_of Author false) /\
+  level_index (level_of Author false) < level_index (level_of Author true) /\
+  level_index (level_of Author true) < level_index (level_of User true).
+Proof. repeat split. Qed.
+
+(* 2. weight.Less is "<=" of the lexicographic order on (precedence, style
+   attribute, specificity): an equal weight inserted later replaces the entry *)
+Theorem C03_weight_less_is_le : forall a b,
+  w_less a b = true <->
+  (w_prec a < w_prec b \/
+   (w_prec a = w_prec b /\
+    ((w_attr a = false /\ w_attr b = true) \/
+     (w_attr a = w_attr b /\ lex_le (w_spec a) (w_spec b) = true)))).
+Proof. exact weight_less_is_le. Qed.
+Print Assumptions C03_weight_less_is_le.
+
+Theorem C03_weight_less_total_preorder :
+  (forall a, w_less a a = true) /\
+  (forall a b c, w_less a b = true -> w_less b c = true -> w_less a c = true) /\
+  (forall a b, w_less a b = true \/ w_less b a = true).
+Proof. exact (conj w_less_refl (conj w_less_trans w_less_total)). Qed.
+Print Assumptions C03_weight_less_total_preorder.
+
+(* 3. the cascade order of the specification is a strict total order on the
+   occurrences of a document (positions are distinct): no unspecified ties *)
+Theorem C03_winner_total_order :
+  (forall x, occ_lt x x = false) /\
+  (forall x y z, occ_lt x y = true -> occ_lt y z = true -> occ_lt x z = true) /\
+  (forall x y, fst x <> fst y -> occ_lt x y = true \/ occ_lt y x = true).
+Proof. exact (conj occ_lt_irrefl (conj occ_lt_trans occ_lt_total)). Qed.
+Print Assumptions C03_winner_total_order.
+
+(* a style attribute outranks every selector; a presentational hint ranks as
+   specificity zero *)
+Theorem C03_rank_order : forall s,
+  rank_le (RSel s) RAttr = true /\ rank_le RAttr (RSel s) = false /\
+  rank_le RHint (RSel s) = true /\ rank_le RHint RAttr = true /\ rank_le RAttr RHint = false /\
+  rank_le RHint (RSel (0, 0, 0)) = true /\ rank_le (RSel (0, 0, 0)) RHint = true.
+Proof. intros s. repeat split. Qed.
+Print Assumptions C03_rank_order.
+
+(* the executable arg-max is the unique maximum of the cascade order *)
+Theorem C03_winner_is_maximum : forall (l : list occ) p w,
+  winner (number l) p = Some w <-> is_winner (number l) p w.
+Proof. exact winner_correct. Qed.
+Print Assumptions C03_winner_is_maximum.
+
+Theorem C03_winner_unique : forall l p w w', is_winner l p w -> is_winner l p w' -> w = w'.
+Proof. exact is_winner_unique. Qed.
+Print Assumptions C03_winner_unique.
+
+Theorem C03_no_winner_iff_nothing_applies : forall (l : list occ) p,
+  winner (number l) p = None <-> forall o, In o l -> o_prop o <> p.
+Proof. exact winner_none_iff. Qed.
+Print Assumptions C03_no_winner_iff_nothing_applies.
+
+(* 4. MAIN: for every document (UA, hint, author, user sheets with @import,
+   @media, nested rules; style and presentational attributes), every element
+   (pseudo = 0) or pseudo-element of an element, and every property, the
+   insertion loops of the implementation produce the value of the declaration
+   that is maximal for (origin+importance, specificity rank, order of
+   appearance) among the declarations that apply. *)
+Theorem C03_cascade_impl_spec : forall (d : document) (pseudo : N) (path : path) (p : N),
+  doc_no_top_amp d = true ->
+  used d pseudo path p = cascaded d pseudo path p.
+Proof. exact cascade_impl_spec. Qed.
+Print Assumptions C03_cascade_impl_spec.
+
+Theorem C03_cascade_picks_the_winner : forall d pseudo path p v,
+  doc_no_top_amp d = true ->
+  (used d pseudo path p = Some v <->
+   exists w, is_winner (number (applicable d pseudo path)) p w /\ o_vid (snd w) = v).
+Proof.
+  intros d k path p v Hw. rewrite (cascade_impl_spec d k path p Hw). unfold cascaded. split.
+  - destruct (winner (number (applicable d k path)) p) as [w|] eqn:W; [|discriminate].
+    intros [= <-]. exists w. split; auto. apply winner_correct; auto.
+  - intros [w [Hwin <-]]. apply winner_correct in Hwin. rewrite Hwin. reflexivity.
+Qed.
+Print Assumptions C03_cascade_picks_the_winner.
+
+(* 5. flattening: the rule list handed to the matcher, expanded to
+   (selector list, declaration) pairs, lists the declarations in source order,
+   nested rules standing where they are written and imports inlined *)
+Theorem C03_flatten_preserves_order : forall device rs ignore_imports,
+  pairs (flatten_rules device rs ignore_imports) = rules_pairs device rs ignore_imports.
+Proof. exact flatten_rules_pairs. Qed.
+Print Assumptions C03_flatten_preserves_order.
+
+Theorem C03_flatten_body_source_order : forall g b own out,
+  pairs (flatten_body g b own out) = pairs out ++ map (pair g) own ++ body_pairs g b.
+Proof. exact flatten_body_pairs. Qed.
+Print Assumptions C03_flatten_body_source_order.
+
+(* the selectors built for nested rules mean what css-nesting-1 says: `&` is
+   matched by what the parent list matches, with the specificity of its most
+   specific member; a member without `&` is a descendant of the parent *)
+Theorem C03_nested_selectors_sound : forall c g g' pre,
+  grp_rel c g g' -> grp_rel (child_ctx c g) (map relative pre) (resolve g' pre).
+Proof. exact resolve_rel. Qed.
+Print Assumptions C03_nested_selectors_sound.
+
+(* 6. declarations in non matching @media blocks, in @import rules that are
+   misplaced / filtered / not fetched, and in rules that do not match the
+   element never apply *)
+Theorem C03_media_filter_sound : forall device q inner rest ig,
+  evaluate_media q device = false ->
+  flatten_rules device (RMedia q inner rest) ig = flatten_rules device (RMedia q RNil rest) ig.
+Proof. exact media_filter_flatten. Qed.
+Print Assumptions C03_media_filter_sound.
+
+Theorem C03_import_filter_sound : forall device q fetched sh rest ig,
+  ig = true \/ evaluate_media q device = false \/ fetched = false ->
+  flatten_rules device (RImport q fetched sh rest) ig = flatten_rules device rest ig.
+Proof. exact import_filter_flatten. Qed.
+Print Assumptions C03_import_filter_sound.
+
+Theorem C03_non_matching_rule_inert : forall o forced pseudo path m r,
+  existsb (fun s => applies s pseudo path) (fst r) = false ->
+  forall p, apply_rule o forced pseudo path m r p = m p.
+Proof. exact non_matching_rule. Qed.
+Print Assumptions C03_non_matching_rule_inert.
+
+Theorem C03_used_value_applies : forall d pseudo path p v,
+  doc_no_top_amp d = true -> used d pseudo path p = Some v ->
+  exists o, In o (applicable d pseudo path) /\ o_prop o = p /\ o_vid o = v.
+Proof. exact used_applicable. Qed.
+Print Assumptions C03_used_value_applies.
+
+(* non-vacuity: the two witnesses of DESIGN section 6 (#8, #9) and a document
+   with every kind of sheet; all satisfy the hypothesis of the main theorem *)
+Definition ex_p : node := mkNode 1 (Some 1) [1] [mkDecl 0 12 false] [].
+Definition ex_doc1 : document :=
+  mkDoc 1 false RNil 1 RNil 1
+    [mkAuthor [] (RStyle [SAnd (SId 1) (SId 1)] (BDecl (mkDecl 0 11 false) BNil) RNil)] [].
+Example C03_id_does_not_beat_style_attribute :
+  doc_no_top_amp ex_doc1 = true /\ used ex_doc1 0 [ex_p] 0 = Some 12 /\ cascaded ex_doc1 0 [ex_p] 0 = Some 12.
+Proof. vm_compute. repeat split. Qed.
+
+Definition ex_doc2 : document :=
+  mkDoc 1 false RNil 1 RNil 1
+    [mkAuthor [] (RStyle [STag 1] (BDecl (mkDecl 3 11 false) (BNest [SAmp] (BDecl (mkDecl 3 12 false) BNil)
+                                   (BDecl (mkDecl 5 13 false) BNil))) RNil)] [].
+Example C03_nested_rule_after_parent_declaration :
+  doc_no_top_amp ex_doc2 = true /\ used ex_doc2 0 [ex_p] 3 = Some 12 /\ used ex_doc2 0 [ex_p] 5 = Some 13.
+Proof. vm_compute. repeat split. Qed.
+
+Definition ex_table : node := mkNode 4 (Some 2) [1] [] [mkDecl 6 20 false].
+Definition ex_doc3 : document :=
+  mkDoc 2 true
+    (RStyle [SId 2] (BDecl (mkDecl 6 21 true) BNil) RNil) 2
+    (RStyle [SId 2] (BDecl (mkDecl 6 22 false) BNil) RNil) 2
+    [mkAuthor [2] (RImport [] true (RStyle [SUniv] (BDecl (mkDecl 6 23 false) BNil) RNil)
+                    (RMedia [1] (RStyle [SId 2] (BDecl (mkDecl 6 24 false) BNil) RNil) RNil))]
+    [(2, RStyle [SClass 1] (BDecl (mkDecl 6 25 false) BNil) RNil)].
+(* UA !important id rule (21) < user class rule (25) < hint attribute (20) < hint
+   sheet (22) < author `*` via @import (23); the print-only @media rule (24) does
+   not apply on screen *)
+Example C03_levels_in_action :
+  doc_no_top_amp ex_doc3 = true /\ used ex_doc3 0 [ex_table] 6 = Some 23 /\
+  length (applicable ex_doc3 0 [ex_table]) = 5%nat.
+Proof. vm_compute. repeat split. Qed.
+
+(* pseudo-elements have their own cascade: p::before and a nested &::before
+   feed (p, before) only; the style attribute of p does not *)
+Definition ex_doc4 : document :=
+  mkDoc 1 false RNil 1 RNil 1
+    [mkAuthor [] (RStyle [SPseudo 1 (STag 1); SClass 9] (BDecl (mkDecl 0 31 false) BNil)
+                 (RStyle [STag 1] (BNest [SPseudo 1 (SAnd SAmp (SClass 1))] (BDecl (mkDecl 0 32 false) BNil)
+                                   (BDecl (mkDecl 0 33 false) BNil)) RNil))] [].
+Example C03_pseudo_element_cascade :
+  doc_no_top_amp ex_doc4 = true /\ used ex_doc4 1 [ex_p] 0 = Some 32 /\ used ex_doc4 0 [ex_p] 0 = Some 12 /\
+  used ex_doc4 2 [ex_p] 0 = None.
+Proof. vm_compute. repeat split. Qed.
